@@ -160,12 +160,12 @@ func vfC01Run(v *vfT, c vfFamACase) {
 }
 
 func TestVerif_C01_Histories(t *testing.T) {
-	maxLen := 12
+	maxLen := 20
 	if vfTier() == "thorough" {
 		maxLen = 30
 	}
 	vfProperty(t, "C01", vfOpts{
-		Rule: "history over a pair of PeerConnections (1..12 ops quick, ..30 thorough) with set-call types drawn independently of the state; non-trivial = at least one offer/answer exchange completed AND at least one Set*Description call was rejected",
+		Rule: "history over a pair of PeerConnections (1..20 ops quick, ..30 thorough) with set-call types drawn independently of the state; non-trivial = at least one offer/answer exchange completed AND at least one Set*Description call was rejected",
 		Assumptions: []string{
 			"every applied description was created by pion (either peer, possibly stale or the peer's) or is one of three rendered browser-style foreign offers; the type always matches the kind of text (answer texts are applied as answer or pranswer)",
 			"reference = JSEP (RFC 8829) / W3C 4.4.1.5 state machine; rollback is treated as an edge from every non-stable state through either call (RFC 8829 5.7), which can only make the check more lenient",
